@@ -42,6 +42,8 @@ def dump_ast(relsrc, filt='ephemeralnet'):
         if r.returncode != 0:
             raise LoweringError('clang failed on %s:\n%s' % (relsrc, r.stderr.decode()[-2000:]))
         os.rename(path + '.tmp', path)
+    if filt == '':
+        return _reduce_full_dump(path)
     s = open(path).read()
     dec = json.JSONDecoder()
     i = 0
@@ -56,6 +58,58 @@ def dump_ast(relsrc, filt='ephemeralnet'):
         docs.append(d)
         i = j
     return docs
+
+
+def _reduce_full_dump(path):
+    """An unfiltered dump (1 GB for main.cpp) is cut down, streaming, to the top-level declarations whose location is
+    inside the repository.  clang prints "file" only when it changes, so the last printed file is tracked."""
+    red = path + '.reduced'
+    if not os.path.exists(red):
+        docs = []
+        cur = None
+        lastfile = None
+        skip_next_file = False
+        keep = False
+        startfile = None
+        with open(path) as fh:
+            for line in fh:
+                if line == '    {\n' and cur is None:
+                    cur = [line]
+                    startfile = lastfile
+                    keep = None
+                    continue
+                st = line.lstrip()
+                if st.startswith('"includedFrom"'):
+                    skip_next_file = True
+                elif st.startswith('"file": '):
+                    if skip_next_file:
+                        skip_next_file = False
+                    else:
+                        lastfile = json.loads(st.rstrip().rstrip(',')[8:])
+                if cur is not None:
+                    cur.append(line)
+                    if keep is None and (st.startswith('"range"') or st.startswith('"kind"') and len(cur) > 3 and False):
+                        pass
+                    if line in ('    }\n', '    },\n'):
+                        text = ''.join(cur).rstrip().rstrip(',')
+                        # decide by the declaration's own location: first "file" inside the chunk, else inherited
+                        m = re.search(r'"loc": \{(.*?)\n      \}', text, re.S)
+                        f = startfile
+                        if m:
+                            mm = re.search(r'^\s*"file": ("(?:[^"\\\\]|\\\\.)*")', re.sub(r'"includedFrom": \{.*?\}', '', m.group(1), flags=re.S), re.M)
+                            if mm:
+                                f = json.loads(mm.group(1))
+                        if f and f.startswith(REPO + '/'):
+                            d = json.loads(text)
+                            d.setdefault('loc', {}).setdefault('file', f)
+                            docs.append(d)
+                        cur = None
+        with open(red + '.tmp', 'w') as out:
+            json.dump(docs, out)
+        os.rename(red + '.tmp', red)
+        os.unlink(path)
+        open(path, 'w').close()
+    return json.load(open(red))
 
 
 DECL_SCOPES = ('NamespaceDecl', 'CXXRecordDecl', 'ClassTemplateSpecializationDecl', 'LinkageSpecDecl',
